@@ -228,11 +228,18 @@ def build():
              slow=True, no_weights=True, abstract=True,
              notes="fit unreachable in this environment: scikit-learn 1.9 calls _backprop with sample_weight",
              alts={"activation": [lambda: "tanh", lambda: "relu"], "solver": [lambda: "adam", lambda: "lbfgs"]}))
+    def _sgd():
+        from sklearn.linear_model import SGDRegressor
+        return SGDRegressor(max_iter=20, tol=None, random_state=0, learning_rate="constant", eta0=0.001)
+
     add(Spec("PiecewiseRegressor",
              [lambda: mm.PiecewiseRegressor(), lambda: mm.PiecewiseRegressor(binner="bins"),
               lambda: mm.PiecewiseRegressor(binner=DecisionTreeRegressor(max_depth=2),
                                             estimator=Ridge(alpha=0.1), n_jobs=2),
-              lambda: mm.PiecewiseRegressor(binner=KBinsDiscretizer(n_bins=3), verbose=False)],
+              lambda: mm.PiecewiseRegressor(binner=KBinsDiscretizer(n_bins=3), verbose=False),
+              # local models whose fit takes (X, y, coef_init, intercept_init, sample_weight)
+              lambda: mm.PiecewiseRegressor(binner=DecisionTreeRegressor(max_depth=1, min_samples_leaf=8),
+                                            estimator=_sgd())],
              reg_data, lambda r: reg_data(r, n=90, d=2), methods=["predict", "transform_bins"],
              rowwise=["predict", "transform_bins"],
              alts={"binner": [lambda: DecisionTreeRegressor(max_depth=3), lambda: KBinsDiscretizer(n_bins=2)],
@@ -325,7 +332,8 @@ def build():
     add(Spec("IntervalRegressor",
              [lambda: mm.IntervalRegressor(LinearRegression(), n_estimators=4),
               lambda: mm.IntervalRegressor(Ridge(alpha=0.3), n_estimators=3, alpha=0.7, n_jobs=2),
-              lambda: mm.IntervalRegressor(Ridge(alpha=0.2), n_estimators=6, alpha=0.8, n_jobs=3, verbose=True)],
+              lambda: mm.IntervalRegressor(Ridge(alpha=0.2), n_estimators=6, alpha=0.8, n_jobs=3, verbose=True),
+              lambda: mm.IntervalRegressor(_sgd(), n_estimators=3)],
              reg_data, lambda r: reg_data(r, n=25, d=2), methods=["predict", "predict_all", "predict_sorted"],
              rowwise=["predict", "predict_all", "predict_sorted"],
              alts={"estimator": [lambda: Ridge(alpha=1.5)], "n_jobs": [lambda: 2, lambda: None]}))
